@@ -265,4 +265,51 @@ theorem cor_range (v1 v2 : List ℝ) (h : v1.length = v2.length) (hn : 2 ≤ v1.
 example : ∃ r, cor ([1, 2, 4] : List ℝ) [3, 1, 0] = .ok r ∧ r ^ 2 ≤ 1 :=
   cor_sq_le_one _ _ rfl (by decide) ⟨1, by simp, 2, by simp, by norm_num⟩ ⟨3, by simp, 1, by simp, by norm_num⟩
 
+/-! ## set-like helpers
+Stated for an arbitrary linear order `β`, with `==` and `<` read as `deq`/`dlt` (`decide (a = b)`,
+`decide (a < b)`). -/
+section Sets
+variable {β : Type} [LinearOrder β]
+
+/-- `contains` is membership -/
+theorem contains_iff (v : List β) (x : β) : contains deq v x = true ↔ x ∈ v := contains_deq v x
+
+/-- `unique` answers a strictly increasing (hence duplicate-free) vector with the same elements -/
+theorem unique_nodup_same_set (v : List β) :
+    (unique deq dlt v).Pairwise (· < ·) ∧ (unique deq dlt v).Nodup ∧ ∀ x, x ∈ unique deq dlt v ↔ x ∈ v := by
+  obtain ⟨h1, h2⟩ := unique_spec v
+  exact ⟨h1, h1.imp (fun {a b} h => ne_of_lt h), h2⟩
+
+/-- `vectorUnion` holds exactly the elements of either argument -/
+theorem union_iff (a b : List β) (x : β) : x ∈ vectorUnion deq a b ↔ x ∈ a ∨ x ∈ b := mem_vectorUnion a b x
+
+/-- … it is the first vector followed by new, pairwise distinct elements (the predicate the driver
+evaluates), so it is duplicate-free when the first vector is -/
+theorem union_shape (a b : List β) :
+    IsUnion deq a b (vectorUnion deq a b) ∧ (a.Nodup → (vectorUnion deq a b).Nodup) :=
+  ⟨isUnion_vectorUnion a b, nodup_vectorUnion a b⟩
+
+/-- `vectorIntersection` holds exactly the common elements (in the order of the first vector) -/
+theorem inter_iff (a b : List β) (x : β) : x ∈ vectorIntersection deq a b ↔ x ∈ a ∧ x ∈ b :=
+  mem_vectorIntersection a b x
+
+theorem inter_sublist (a b : List β) : (vectorIntersection deq a b).Sublist a := by
+  unfold vectorIntersection; exact List.filter_sublist
+
+/-- `diff` (repaired) holds exactly the elements of the first vector that are not in the second,
+strictly increasing — for every second vector, the empty one included -/
+theorem diff_iff (a b : List β) :
+    (∀ x, x ∈ diff deq dlt a b ↔ x ∈ a ∧ x ∉ b) ∧ (diff deq dlt a b).Pairwise (· < ·) := diff_spec a b
+
+/-- witness: before the repair, `diff` of a non-empty vector and an empty second vector read
+`v2[0]` of the empty vector -/
+theorem diffOrig_empty_ub (a : List β) (ha : a ≠ []) : diffOrig deq dlt a [] = .error .ub := by
+  unfold diffOrig
+  have hlen : (a.mergeSort (leOfLt dlt)).length = a.length := List.length_mergeSort a
+  cases hs : a.mergeSort (leOfLt dlt) with
+  | nil => rw [hs] at hlen; exact absurd (List.length_eq_zero_iff.mp hlen.symm) ha
+  | cons x xs => simp [diffLoop, sameAsPrev, advance]
+
+end Sets
+
 end Bpp.C07
